@@ -419,6 +419,11 @@ func (fc *FnCtx) applyContract(cs *spec.FuncSpec, name string, args []Val, resT 
 			// a clause about the callee's own call sites (callres, called, ...) says nothing to a caller
 			continue
 		}
+		if hasOwnTag(e.Tags) {
+			// "tags: ..., own": proved for the callee, deliberately not handed to its callers
+			// (a quantified clause no caller needs only feeds the matching loop of their proofs)
+			continue
+		}
 		ec := &evalCtx{fc: fc, vars: vars, cur: st, old: pre, assumeMode: true}
 		fc.assume(g, ec.boolean(e.E), "ensures of "+name+": "+e.Text)
 	}
@@ -1053,4 +1058,13 @@ func (fc *FnCtx) reslicedOrigin(v ssa.Value) int {
 		}
 	}
 	return fc.resliced[v]
+}
+
+func hasOwnTag(tags []string) bool {
+	for _, t := range tags {
+		if t == "own" {
+			return true
+		}
+	}
+	return false
 }
